@@ -420,9 +420,30 @@ func init() {
 		}
 		elems, ok := ex.variadicElems(st, arg, mt.Key(), instr)
 		if !ok {
-			ex.unsupportedAt(instr, "idset method with a variadic argument of unknown length")
+			return nil // unknown length: the callers below over-approximate
 		}
 		return elems
+	}
+	known := func(ex *Exec, st *State, mt *types.Map, arg Value, instr ssa.Instruction) bool {
+		if t, isT := arg.(*Term); isT && t.Sort == ex.vc.SortOf(mt.Key()) {
+			return true
+		}
+		_, ok := ex.variadicElems(st, arg, mt.Key(), instr)
+		return ok
+	}
+	// havocSet: the set's domain and length become arbitrary (argument list of unknown length)
+	havocSet := func(ex *Exec, st *State, reach *Term, mt *types.Map, s *Term) {
+		d, _, l, ks, _ := ex.mapComps(mt)
+		dsort := ArraySort(SInt, ArraySort(ks, SBool))
+		lsort := ArraySort(SInt, ex.vc.IntSort())
+		dc := ex.comp(st, d, dsort)
+		lc := ex.comp(st, l, lsort)
+		nd := ex.vc.FreshConst("idset.dom", ArraySort(ks, SBool))
+		nl := ex.vc.FreshConst("idset.len", ex.vc.IntSort())
+		ex.vc.Assume(reach, ex.vc.Cmp("<=", ex.vc.IntConst(0), nl, types.Typ[types.Int]))
+		isnil := Eq(s, IntLit(0))
+		ex.setComp(st, d, Ite(isnil, dc, Store(dc, s, nd)))
+		ex.setComp(st, l, Ite(isnil, lc, Store(lc, s, nl)))
 	}
 	note := func(ex *Exec) {
 		ex.vc.note("trusted model of goresctrl idset.IDSet methods Has/Add/Del/Size (the map operations of the library source)")
@@ -431,6 +452,9 @@ func init() {
 		note(ex)
 		mt := mapT(ex, instr)
 		s := args[0].(*Term)
+		if !known(ex, st, mt, args[1], instr) {
+			return ex.vc.FreshConst("idset.has", SBool)
+		}
 		cs := []*Term{Not(Eq(s, IntLit(0)))}
 		for _, id := range ids(ex, st, mt, args[1], instr) {
 			cs = append(cs, Select(ex.mapDom(st, mt, s), id))
@@ -441,6 +465,11 @@ func init() {
 		note(ex)
 		mt := mapT(ex, instr)
 		s := args[0].(*Term)
+		if !known(ex, st, mt, args[1], instr) {
+			ex.vc.Assume(reach, Not(Eq(s, IntLit(0))))
+			havocSet(ex, st, reach, mt, s)
+			return nil
+		}
 		for _, id := range ids(ex, st, mt, args[1], instr) {
 			if ex.safety {
 				ex.safeOblige(fr, reach, Not(Eq(s, IntLit(0))), "nilmap", instr)
@@ -454,6 +483,10 @@ func init() {
 		note(ex)
 		mt := mapT(ex, instr)
 		s := args[0].(*Term)
+		if !known(ex, st, mt, args[1], instr) {
+			havocSet(ex, st, reach, mt, s)
+			return nil
+		}
 		for _, id := range ids(ex, st, mt, args[1], instr) {
 			ex.mapDelete(st, mt, s, id)
 		}
